@@ -109,9 +109,12 @@ func c03Line(e *Env) string {
 		return "_e{" + n + "," + m + "}" + sep + title + "|" + text + tail
 	case 7: // almost valid shapes
 		e.Fault("almost-valid")
-		return []string{"a:1|c|@", "a:1|c|@0", "a:1|c|@-1", "a:1|c|@nan", "a:1|c|@1e999", "a:1e999|g", "a:-inf|g", "a:0x10|c", "a:1|", "a:1||", "a:1|c|", "a:1|c||", "a:1|c|#", "a:1|c|#,",
+		shapes := []string{"a:1|c|@", "a:1|c|@0", "a:1|c|@-1", "a:1|c|@nan", "a:1|c|@1e999", "a:1e999|g", "a:-inf|g", "a:0x10|c", "a:1|", "a:1||", "a:1|c|", "a:1|c||", "a:1|c|#", "a:1|c|#,",
 			"a:1|c|#,,|@0.5", ":|", "a::1|c", "a:1|cc", "a:1|msx", "_e", "_e{", "_e{1", "_e{1,", "_e{1,1", "_e{1,1}", "_e{1,1}:", "_e{0,0}:", "_e{0,0}:|", "_e{1,1}:a", "_e{1,1}:a|", "_e{1,1}:a|b|", "_e{1,1}:a|b|d:", "_e{1,1}:a|b|p:", "_e{1,1}:a|b|#", "_", "__e{1,1}:a|b",
-			"_sc|db.up|0|h:web1|#env:prod|m:all good", "_sc|", "_sc", "_s", "_sx|a|0", "_sc|a|9|d:1|#t"}[e.Draw(42)]
+			"_sc|db.up|0|h:web1|#env:prod|m:all good", "_sc|", "_sc", "_s", "_sx|a|0", "_sc|a|9|d:1|#t",
+			// a value that is only a sign, a dot or an exponent stub
+			"a:-|c", "a:-|g", "a:-|ms", "a:+|c", "a:.|c", "a:-.|ms", "a:e|c", "a:1e|c", "a:1e+|g", "a:-e1|g", "a:--1|c", "a:+-1|g"}
+		return shapes[e.Draw(len(shapes))]
 	default: // random bytes
 		e.Fault("random-bytes")
 		n := 1 + e.Draw(40)
@@ -127,7 +130,7 @@ func c03Line(e *Env) string {
 }
 
 func (c03) Run(e *Env) {
-	e.ProbeDecl("datagram-side", "http-side", "hostile-then-canary", "max-size-datagram", "http-corrupt-compressed", "http-unknown-encoding", "http-4xx-nothing-dispatched", "empty-datagram", "datagram-fills-the-receive-buffer", "http-event-body")
+	e.ProbeDecl("datagram-side", "http-side", "hostile-then-canary", "max-size-datagram", "http-corrupt-compressed", "http-unknown-encoding", "http-4xx-nothing-dispatched", "http-lz4-block-checksums", "empty-datagram", "datagram-fills-the-receive-buffer", "http-event-body")
 	if e.Chance(2, 3) {
 		c03Datagrams(e)
 	} else {
@@ -342,6 +345,19 @@ func c03Body(e *Env) ([]byte, string, bool) {
 	case "lz4":
 		var buf bytes.Buffer
 		w := lz4.NewWriter(&buf)
+		if e.Chance(1, 3) {
+			// frame options a client may legitimately choose: per-block checksums, no content checksum, small blocks
+			if e.Bool() {
+				w.Apply(lz4.BlockChecksumOption(true))
+				e.Probe("http-lz4-block-checksums")
+			}
+			if e.Chance(1, 3) {
+				w.Apply(lz4.ChecksumOption(false))
+			}
+			if e.Chance(1, 3) {
+				w.Apply(lz4.BlockSizeOption(lz4.Block64Kb))
+			}
+		}
 		if e.Chance(1, 3) {
 			// optional content-size field, honest or wildly wrong
 			sz := []uint64{uint64(len(raw)), 0, 1 << 20, 1 << 36, 1<<63 - 1, 1 << 63, 1<<64 - 1}[e.Draw(7)]
